@@ -1,2 +1,3 @@
 import GnarkVerif.Props.C17a
 import GnarkVerif.Props.C17b
+import GnarkVerif.Props.C17c
